@@ -37,10 +37,21 @@ def nontrivial(kind, ins, outs):
         return any(o.startswith("at=") and o != "at=done" for o in outs)
     if kind == "plan":
         return any(o.startswith("seq=") and o != "seq=" for o in outs)
+    if kind == "visit":
+        return "started=1" in outs
     return True
 
 
 def project(kind, ins, outs):
+    if kind == "visit":
+        res = []
+        for o in outs:
+            if o.startswith("started="):
+                continue
+            if o.startswith("vis="):
+                o = "vis=ERR" if o == "vis=ERR" else "vis=OK"
+            res.append(o)
+        return res
     return [o for o in outs if not o.startswith("n=")]
 
 
@@ -101,6 +112,31 @@ def flow(run):
                 f.write("crash %s %d\n" % (key, k))
     st = core.evaluate(run, crashp, n_corpus=len(ccrash), label="crash")
     if st is None:
+        return
+    # the visit walk interleaved with the operation: it starts at the walk's k-th yield point (every k) and has
+    # completed j of its n steps when the walk goes on (j = 0, n/2, n; thorough: every j)
+    visitp = os.path.join(d, "visit.in")
+    cvisit = [l for l in corpus if l.startswith("visit ")]
+    with open(visitp, "w") as f:
+        for l in cvisit:
+            f.write(l + "\n")
+        seen = set()
+        for c in open(os.path.join(d, "plan.cases.txt")):
+            kind, ins, outs = core.split_case(c)
+            seq = [o for o in outs if o.startswith("seq=")]
+            nv = [o for o in outs if o.startswith("nv=")]
+            if not seq or not nv:
+                continue
+            n = len([s for s in seq[0][4:].split(",") if s])
+            key = " ".join(ins)
+            if key in seen or n == 0:
+                continue
+            seen.add(key)
+            js = range(n + 1) if run.tier == "thorough" else sorted(set([0, 1, n // 2, n - 1, n]))
+            for k in range(int(nv[0][3:])):
+                for j in js:
+                    f.write("visit %s %d %d\n" % (key, k, j))
+    if core.evaluate(run, visitp, n_corpus=len(cvisit), label="visit") is None:
         return
     # count the crash states actually examined (each truncation length is one state)
     total = 0
